@@ -290,6 +290,12 @@ def load(repo):
             n = _convert(doc, _LineTracker())
             if n.kind == 'FunctionDecl' and n.name == name and any(k.kind == 'CompoundStmt' for k in n.kids):
                 decls['fn:' + name] = n
+            elif n.kind == 'FunctionTemplateDecl' and n.name == name:
+                # a function template: its instantiations all have the shape of the one definition; any of them is read
+                inst = [k for k in n.kids if k.kind == 'FunctionDecl' and k.name == name and any(c.kind == 'TemplateArgument' for c in k.kids)
+                        and any(c.kind == 'CompoundStmt' for c in k.kids)]
+                if inst:
+                    decls['fn:' + name] = inst[-1]
     # helpers called by helpers
     for _round in range(3):
         more = set()
@@ -393,6 +399,7 @@ def load(repo):
                  'compute_outside_probabilities', 'config', 'combinator_result', 'utils::argmax'):
         if need not in decls:
             raise AnalysisError('%s: declaration %r not found by clang' % (HEADER, need))
+    _expand_value_helpers(decls)
     try:
         os.makedirs(cdir, exist_ok=True)
         import sys
@@ -409,6 +416,112 @@ def load(repo):
     GLOBAL_ENUMS.update(decls.get('enums:', {}))
     _install_member_aliases(decls)
     return decls
+
+
+def clone(n, parent=None, sub=None):
+    """structural copy of a subtree; `sub` maps the id of a parameter to the (argument) subtree its uses stand for"""
+    if sub and n.kind == 'DeclRefExpr' and n.refid in sub:
+        return clone(sub[n.refid], parent, None)
+    c = N()
+    for slot in N.__slots__:
+        if slot in ('kids', 'parent'):
+            continue
+        try:
+            setattr(c, slot, getattr(n, slot))
+        except AttributeError:
+            pass
+    c.parent = parent
+    c.kids = [clone(k, c, sub) for k in n.kids]
+    return c
+
+
+def _plain_place(n):
+    """an argument that names a place without computing anything: x, x[i], x.m, *p, p->m with plain names inside"""
+    n = strip(n)
+    if n.kind == 'DeclRefExpr':
+        return True
+    if n.kind == 'MemberExpr':
+        return not n.kids or _plain_place(n.kids[0])
+    if n.kind == 'UnaryOperator' and n.op == '*':
+        return _plain_place(n.kids[0])
+    if n.kind == 'ArraySubscriptExpr':
+        return all(_plain_place(k) for k in n.kids)
+    if n.kind == 'CXXOperatorCallExpr' and n.kids and strip(n.kids[0]).ref == 'operator[]' and len(n.kids) == 3:
+        return _plain_place(n.kids[1]) and _plain_place(n.kids[2])
+    return False
+
+
+def _expand_value_helpers(decls):
+    """`T x = helper(place, ..);` where the helper of the header is `{ T v = E; S..; return v; }` with plain expression
+    statements S reads `T x = E; S..;` at the call site, the reference parameters standing for the places handed in
+    (utils::pop_top(queue): `auto top = queue.top(); queue.pop(); return top;`)."""
+    ps = decls.get('parse_sentence')
+    if ps is None:
+        return
+    shapes = {}
+    for key, fn in decls.items():
+        if not key.startswith('fn:'):
+            continue
+        body = [k for k in fn.kids if k.kind == 'CompoundStmt']
+        if not body or len(body[0].kids) < 3:
+            continue
+        st = body[0].kids
+        first, last = st[0], st[-1]
+        if not (first.kind == 'DeclStmt' and len(first.kids) == 1 and first.kids[0].kind == 'VarDecl' and last.kind == 'ReturnStmt' and last.kids):
+            continue
+        v = first.kids[0]
+        r = strip(last.kids[0])
+        while r.kind in ('CXXConstructExpr', 'ImplicitCastExpr', 'ExprWithCleanups', 'MaterializeTemporaryExpr', 'CXXBindTemporaryExpr') and len(r.kids) == 1:
+            r = strip(r.kids[0])
+        if not (r.kind == 'DeclRefExpr' and r.refid == v.id):
+            continue
+        mid = st[1:-1]
+        if any(m.kind in ('DeclStmt', 'ReturnStmt', 'IfStmt', 'ForStmt', 'WhileStmt', 'DoStmt', 'SwitchStmt', 'CXXForRangeStmt', 'CXXTryStmt', 'CompoundStmt',
+                          'BreakStmt', 'ContinueStmt', 'GotoStmt', 'LabelStmt', 'CXXThrowExpr') for m in mid):
+            continue
+        if any(x.kind == 'DeclRefExpr' and x.refid == v.id for m in mid for x in m.walk()):
+            continue            # the statements between use the value itself
+        init = [k for k in v.kids if k.kind not in ('Null',) and not k.kind.endswith('Attr')]
+        if len(init) != 1:
+            continue
+        params = [p_ for p_ in fn.kids if p_.kind == 'ParmVarDecl']
+        if not params or not all('&' in (p_.type or '') for p_ in params):
+            continue
+        shapes[key[3:]] = (params, init[0], mid)
+    if not shapes:
+        return
+    for blk in [n for n in ps.walk() if n.kind == 'CompoundStmt']:
+        i = 0
+        while i < len(blk.kids):
+            st = blk.kids[i]
+            i += 1
+            if not (st.kind == 'DeclStmt' and len(st.kids) == 1 and st.kids[0].kind == 'VarDecl'):
+                continue
+            d = st.kids[0]
+            init = [k for k in d.kids if k.kind not in ('Null',) and not k.kind.endswith('Attr')]
+            if len(init) != 1:
+                continue
+            c = init[0]
+            while c.kind in ('CXXConstructExpr', 'ImplicitCastExpr', 'ExprWithCleanups', 'MaterializeTemporaryExpr', 'CXXBindTemporaryExpr', 'CXXFunctionalCastExpr') and len(c.kids) == 1:
+                c = c.kids[0]
+            if c.kind != 'CallExpr' or not c.kids:
+                continue
+            callee = strip(c.kids[0])
+            if not (callee.kind == 'DeclRefExpr' and callee.ref in shapes):
+                continue
+            params, e, mid = shapes[callee.ref]
+            args = c.kids[1:]
+            if len(args) != len(params) or not all(_plain_place(a) for a in args):
+                continue
+            sub = {p_.id: a for p_, a in zip(params, args)}
+            new_init = clone(e, d, sub)
+            d.kids[d.kids.index(init[0])] = new_init
+            extra = [clone(m, blk, sub) for m in mid]
+            for x in extra:
+                for y in x.walk():
+                    y.line = st.line
+            blk.kids[i:i] = extra
+            i += len(extra)
 
 
 MEMBER_ALIAS = {}       # (record, member) -> the name its reads are spelt with ('first' / 'second' of a pair-like record)
